@@ -15,7 +15,6 @@ package guard
 
 import (
 	"bufio"
-	"bytes"
 	"encoding/json"
 	"fmt"
 	"io"
@@ -213,7 +212,10 @@ func (c *Ctx) onPanic(entry string, describe func() string, v any) {
 		stackTxt = "\n  stack: " + strings.Join(lines, "\n         ")
 	}
 	c.perKey[key]++
-	report := c.perKey[key] <= 3
+	variety := "\x01" + key + entry + reNum.ReplaceAllString(text, "N")
+	c.perKey[variety]++
+	// at most 3 per key and chunk, plus the first of every (entry point, message shape)
+	report := c.perKey[key] <= 3 || c.perKey[variety] == 1
 	if c.mode != "" {
 		report = c.hit // replay modes report only the case asked for
 	}
@@ -506,16 +508,18 @@ func (p *proc) close() {
 }
 
 type driver struct {
-	r       *enumx.Run
-	areas   []*Area
-	tier    string
-	scratch string
-	nproc   atomic.Int64
-	mu      sync.Mutex
-	ceil    time.Duration
-	hanging map[string]bool   // hang keys (site/hang) confirmed in this run
-	skips   map[task][]uint64 // calls already reported as hang/fatal, not executed again
-	seen    map[string]bool   // violations already handed to enumx
+	r         *enumx.Run
+	areas     []*Area
+	tier      string
+	scratch   string
+	nproc     atomic.Int64
+	mu        sync.Mutex
+	ceil      time.Duration
+	hanging   map[string]bool   // hang keys (site/hang) confirmed in this run
+	skips     map[task][]uint64 // calls already reported as hang/fatal, not executed again
+	seen      map[string]bool   // violating calls already recorded
+	groups    map[string]*group // violating calls grouped by key
+	immediate bool              // replay mode: report at once
 }
 
 func (d *driver) isHanging(key string) bool {
@@ -811,16 +815,62 @@ func tailStr(s string, n int) string {
 	return s
 }
 
+// violation records one violating call. In a sweep the calls are grouped by
+// key and handed to enumx at the end as ONE finding per key (with the first
+// call as the replay case and further inputs listed as examples); in replay
+// mode they are reported at once.
 func (d *driver) violation(a *Area, t task, kind, key, msg, entry, input string) {
 	id := fmt.Sprintf("%s\x00%d\x00%s\x00%s\x00%s", a.Name, t.chunk, key, entry, input)
 	d.mu.Lock()
-	dup := d.seen[id]
-	d.seen[id] = true
-	d.mu.Unlock()
-	if dup {
+	defer d.mu.Unlock()
+	if d.seen[id] {
 		return // the chunk was run again after a lost worker
 	}
-	d.r.Violation(key, msg, ReplayCase{Area: a.Name, Chunk: t.chunk, Entry: entry, Input: input, Kind: kind})
+	d.seen[id] = true
+	rc := ReplayCase{Area: a.Name, Chunk: t.chunk, Entry: entry, Input: input, Kind: kind}
+	if d.immediate {
+		d.r.Violation(key, msg, rc)
+		return
+	}
+	g := d.groups[key]
+	if g == nil {
+		g = &group{key: key, msg: msg, rc: rc, order: len(d.groups)}
+		d.groups[key] = g
+	} else if len(g.more) < 8 {
+		ex := entry + " " + input
+		if len(ex) > 300 {
+			ex = ex[:300] + "..."
+		}
+		g.more = append(g.more, ex)
+	}
+	g.n++
+}
+
+type group struct {
+	key, msg string
+	rc       ReplayCase
+	more     []string
+	n, order int
+}
+
+func (d *driver) flush() {
+	d.mu.Lock()
+	defer d.mu.Unlock()
+	var gs []*group
+	for _, g := range d.groups {
+		gs = append(gs, g)
+	}
+	sort.Slice(gs, func(i, j int) bool { return gs[i].key < gs[j].key })
+	counts := map[string]int{}
+	for _, g := range gs {
+		msg := g.msg
+		if g.n > 1 {
+			msg += fmt.Sprintf("\n  %d violating calls were reported under this key (workers report at most 3 per key and chunk, plus the first of every entry point / message shape); further inputs:\n    %s", g.n, strings.Join(g.more, "\n    "))
+		}
+		counts[g.key] = g.n
+		d.r.Violation(g.key, msg, g.rc)
+	}
+	d.r.Set("violating_calls_per_key", counts)
 }
 
 // judgeDeath is called when a worker died (or was stopped as stalled) while
@@ -1128,21 +1178,17 @@ func Main(t *testing.T, property, part string, areas func(thorough bool) []*Area
 		if own {
 			defer os.RemoveAll(scratch)
 		}
-		d := &driver{r: r, areas: areas(r.Thorough()), tier: r.Tier, scratch: scratch, ceil: ceiling(), hanging: map[string]bool{}, skips: map[task][]uint64{}, seen: map[string]bool{}}
+		d := &driver{r: r, areas: areas(r.Thorough()), tier: r.Tier, scratch: scratch, ceil: ceiling(), hanging: map[string]bool{}, skips: map[task][]uint64{}, seen: map[string]bool{}, groups: map[string]*group{}}
 		r.Rule(rule)
 		r.Assume("C07 is decided for all inputs up to the stated bounds, not all byte strings: every member of each bounded family (token sequences, short strings over the stated alphabets, every truncation and single-byte mutation class of valid encodings, every length 0..64 of a byte argument) is executed; coverage-guided fuzzing is a different family and is not used")
 		r.Assume("hang = a call that does not return within the per-call ceiling (30 s unless overridden; slowest legitimate call observed is an unsatisfiable cron Next, ~50 ms), observed once in the sweep and confirmed on three isolated re-runs; after a hang has been confirmed, further stalls at the same code site are recorded under the same key after 5 s without re-confirmation")
 		r.Assume("documented programmer-misuse panics are excluded by construction: AEAD Seal with a wrong-size nonce, cron.NewParser with two optional fields, ttlcache.Set with ttl<=0, errors.Build without ErrorInfo; in-memory arguments are well-formed Go values (no nil interfaces / typed-nil key objects)")
 		if replay != nil {
+			d.immediate = true
 			d.replay(replay)
 			return
 		}
 		d.run()
-		var names []string
-		for _, a := range d.areas {
-			names = append(names, a.Name)
-		}
-		sort.Strings(names)
-		_ = bytes.MinRead
+		d.flush()
 	})
 }
